@@ -7,6 +7,7 @@ import (
 	"go/types"
 	"golang.org/x/tools/go/packages"
 	"sort"
+	"strconv"
 	"strings"
 )
 
@@ -73,13 +74,65 @@ func boxedVarsOf(fi *FuncInfo) map[types.Object]bool {
 	return out
 }
 
-func (w *World) verifyFunc(fi *FuncInfo, props []string) (res *FuncResult) {
+// verifyFunc generates the obligations of one function.  With `flag paths` in its contract the body is explored path
+// by path (every if/else decision and every way out of a loop is a separate run, no state merging): each obligation is
+// then a group of queries, one per path on which it arises, all of which must be discharged.
+func (w *World) verifyFunc(fi *FuncInfo, props []string) *FuncResult {
+	if fi.Spec == nil || fi.Spec.Flags["paths"] == "" {
+		r, _, _ := w.verifyFuncOnce(fi, props, nil, false)
+		return r
+	}
+	var all *FuncResult
+	var prefix []int
+	for run := 1; ; run++ {
+		r, taken, arity := w.verifyFuncOnce(fi, props, prefix, true)
+		if r.Err != "" {
+			return r
+		}
+		for _, ob := range r.Obligs {
+			ob.Group = ob.Name
+			if k := strings.LastIndex(ob.Group, "~"); k > 0 {
+				if _, err := strconv.Atoi(ob.Group[k+1:]); err == nil && !strings.Contains(ob.Group[k:], "(") {
+					// the same clause met again on this path (several exits): one group
+					if ob.Class == "post" || ob.Class == "frame" || ob.Class == "vacuity" || ob.Class == "lock-released" {
+						ob.Group = ob.Group[:k]
+					}
+				}
+			}
+			ob.Name = fmt.Sprintf("%s~path%d", ob.Name, run)
+		}
+		if all == nil {
+			all = r
+		} else {
+			all.Obligs = append(all.Obligs, r.Obligs...)
+			all.Warnings = append(all.Warnings, r.Warnings...)
+		}
+		// next path: flip the last decision that still has an untried alternative
+		i := len(taken) - 1
+		for i >= 0 && taken[i]+1 >= arity[i] {
+			i--
+		}
+		if i < 0 {
+			break
+		}
+		prefix = append(append([]int(nil), taken[:i]...), taken[i]+1)
+		if run >= 256 {
+			all.Err = "unsupported: more than 256 paths with `flag paths`"
+			all.Obligs = nil
+			break
+		}
+	}
+	return all
+}
+
+func (w *World) verifyFuncOnce(fi *FuncInfo, props []string, prefix []int, pathMode bool) (res *FuncResult, taken, arity []int) {
 	res = &FuncResult{Key: fi.Key, HasSpec: fi.Spec != nil}
 	c := newCtx(w, shortKey(fi.Key))
 	c.props = props
 	c.boxedVars = boxedVarsOf(fi)
 	c.interior = map[string]*Loc{}
-	fx := &Fx{c: c, w: w, fi: fi, pkg: fi.Pkg, info: fi.Pkg.TypesInfo, spec: fi.Spec}
+	fx := &Fx{c: c, w: w, fi: fi, pkg: fi.Pkg, info: fi.Pkg.TypesInfo, spec: fi.Spec, pathMode: pathMode, prefix: prefix}
+	defer func() { taken, arity = fx.taken, fx.arity }()
 	defer func() {
 		res.Warnings = c.warnings
 		if r := recover(); r != nil {
@@ -220,6 +273,17 @@ func (w *World) verifyFunc(fi *FuncInfo, props []string) (res *FuncResult) {
 	// vacuity: the precondition must be satisfiable
 	vo := c.oblige(st, "vacuity", "requires", "true", "precondition is satisfiable", w.pos(fi.Body.Pos()))
 	vo.Vacuity = true
+	// tail statement: the last statement, or the one before a final bare `return`
+	if n := len(fi.Body.List); n > 0 {
+		last := fi.Body.List[n-1]
+		if r, ok := last.(*ast.ReturnStmt); ok && len(r.Results) == 0 && n > 1 {
+			last = fi.Body.List[n-2]
+		}
+		switch last.(type) {
+		case *ast.ForStmt, *ast.RangeStmt:
+			fx.tailStmt = last
+		}
+	}
 	fx.execBlock(st, fi.Body.List)
 	if !st.dead {
 		fx.doReturn(st)
@@ -229,107 +293,128 @@ func (w *World) verifyFunc(fi *FuncInfo, props []string) (res *FuncResult) {
 		// no normal exit (infinite loop / always panics): posts hold vacuously
 		res.Obligs = c.obligs
 		fx.finishInputs()
-		return res
+		return
 	}
-	vx := c.oblige(exit, "vacuity", "exit", "true", "some execution reaches the end of the function", w.pos(fi.Body.Rbrace))
-	vx.Vacuity = true
-	// locks taken by this activation are released on every exit
-	for _, mu := range c.locks {
-		if fi.Spec != nil && fi.Spec.Flags["lockeffect"] != "" {
-			break // the contract states the lock effect explicitly (ensures held(...) == ...)
-		}
-		phi := fmt.Sprintf("(= (select %s %s) (select %s %s))", exit.heap("LK", "(Array Int Int)"), mu, fx.entry.heap("LK", "(Array Int Int)"), mu)
-		c.oblige(exit, "lock-released", "exit("+lockName(mu)+")", phi, "lock state at exit equals lock state at entry", w.pos(fi.Body.Rbrace))
-	}
-	if fi.Spec != nil && fi.Spec.ModSet {
-		declared := map[string]string{}
-		for _, m := range fi.Spec.Modifies {
-			if strings.HasPrefix(m, "fresh ") {
-				declared[strings.TrimSpace(strings.TrimPrefix(m, "fresh "))] = "fresh"
-			} else {
-				declared[m] = "any"
+	checkExit := func(exit *State, sfx string) {
+		vx := c.oblige(exit, "vacuity", "exit"+sfx, "true", "some execution reaches the end of the function", w.pos(fi.Body.Rbrace))
+		vx.Vacuity = true
+		// locks taken by this activation are released on every exit
+		for _, mu := range c.locks {
+			if fi.Spec != nil && fi.Spec.Flags["lockeffect"] != "" {
+				break // the contract states the lock effect explicitly (ensures held(...) == ...)
 			}
+			phi := fmt.Sprintf("(= (select %s %s) (select %s %s))", exit.heap("LK", "(Array Int Int)"), mu, fx.entry.heap("LK", "(Array Int Int)"), mu)
+			c.oblige(exit, "lock-released", "exit("+lockName(mu)+")"+sfx, phi, "lock state at exit equals lock state at entry", w.pos(fi.Body.Rbrace))
 		}
-		if declared["*"] == "" {
-			for _, k := range sortedKeys(c.heapSorts()) {
-				srt := c.heapSorts()[k]
-				he, hx := fx.entry.heap(k, srt), exit.heap(k, srt)
-				if he == hx || k == "NC" || k == "CLB" || k == "CNT" || k == "CNC" {
-					continue
+		if fi.Spec != nil && fi.Spec.ModSet {
+			declared := map[string]string{}
+			for _, m := range fi.Spec.Modifies {
+				if strings.HasPrefix(m, "fresh ") {
+					declared[strings.TrimSpace(strings.TrimPrefix(m, "fresh "))] = "fresh"
+				} else {
+					declared[m] = "any"
 				}
-				// writes to objects allocated by this activation are invisible to the caller: every undeclared heap
-				// must be unchanged at each reference that existed at entry
-				_ = fresherCells
-				if objs := fi.Spec.ModObjs[k]; declared[k] == "any" && len(objs) > 0 {
-					// only the named objects may change
-					var ne []string
-					for _, on := range objs {
-						for _, in := range c.inputs {
-							if in.Name == on {
-								ne = append(ne, fmt.Sprintf("(not (= r!f %s))", in.Term))
+			}
+			if declared["*"] == "" {
+				for _, k := range sortedKeys(c.heapSorts()) {
+					srt := c.heapSorts()[k]
+					he, hx := fx.entry.heap(k, srt), exit.heap(k, srt)
+					if he == hx || k == "NC" || k == "CLB" || k == "CNT" || k == "CNC" {
+						continue
+					}
+					// writes to objects allocated by this activation are invisible to the caller: every undeclared heap
+					// must be unchanged at each reference that existed at entry
+					_ = fresherCells
+					if objs := fi.Spec.ModObjs[k]; declared[k] == "any" && len(objs) > 0 {
+						// only the named objects may change
+						var ne []string
+						for _, on := range objs {
+							for _, in := range c.inputs {
+								if in.Name == on {
+									ne = append(ne, fmt.Sprintf("(not (= r!f %s))", in.Term))
+								}
 							}
 						}
+						phi := fmt.Sprintf("(forall ((r!f Int)) (=> (and (< 0 r!f) (<= r!f %s) %s) (= (select %s r!f) (select %s r!f))))", fx.entry.alloc, strings.Join(append(ne, "true"), " "), hx, he)
+						c.oblige(exit, "frame", "only("+k+")"+sfx, phi, "frame: "+k+" changes only at the objects named in the modifies clause", w.pos(fi.Body.Rbrace))
+						continue
 					}
-					phi := fmt.Sprintf("(forall ((r!f Int)) (=> (and (< 0 r!f) (<= r!f %s) %s) (= (select %s r!f) (select %s r!f))))", fx.entry.alloc, strings.Join(append(ne, "true"), " "), hx, he)
-					c.oblige(exit, "frame", "only("+k+")", phi, "frame: "+k+" changes only at the objects named in the modifies clause", w.pos(fi.Body.Rbrace))
-					continue
+					if declared[k] == "any" {
+						continue
+					}
+					if strings.HasPrefix(k, "F:") || strings.HasPrefix(k, "E:") || strings.HasPrefix(k, "P:") || strings.HasPrefix(k, "M") || strings.HasPrefix(k, "G:") || k == "CC" || k == "CP" || declared[k] == "fresh" {
+						phi := fmt.Sprintf("(forall ((r!f Int)) (=> (and (< 0 r!f) (<= r!f %s)) (= (select %s r!f) (select %s r!f))))", fx.entry.alloc, hx, he)
+						c.oblige(exit, "frame", "old("+k+")"+sfx, phi, "frame: "+k+" is not in the modifies clause: unchanged at every reference that existed at entry", w.pos(fi.Body.Rbrace))
+						continue
+					}
+					c.oblige(exit, "frame", k+sfx, fmt.Sprintf("(= %s %s)", hx, he), "frame: "+k+" is not in the modifies clause and must be unchanged", w.pos(fi.Body.Rbrace))
 				}
-				if declared[k] == "any" {
-					continue
+			}
+		}
+		if fi.Spec != nil && fi.Spec.Flags["emits"] == "opaque" {
+			phi := fmt.Sprintf("(forall ((k!p Int)) (=> (and (<= %s k!p) (< k!p %s)) (>= (ev_kind (select %s k!p)) %d)))", fx.entry.evlen, exit.evlen, exit.evlog, evKinds["Other"])
+			c.oblige(exit, "post", "emits.opaque"+sfx, phi, "emits only opaque events (of unknown callbacks)", w.pos(fi.Body.Rbrace))
+		}
+		if fi.Spec != nil && (len(fi.Spec.EmitsC) > 0 || fi.Spec.Flags["emits"] == "none") {
+			// the function's events are exactly the declared list
+			n := len(fi.Spec.EmitsC)
+			c.oblige(exit, "post", "emits.count"+sfx, fmt.Sprintf("(= %s (+ %s %d))", exit.evlen, fx.entry.evlen, n), fmt.Sprintf("emits exactly %d events", n), w.pos(fi.Body.Rbrace))
+			for k, ec := range fi.Spec.EmitsC {
+				env := fx.specEnv(exit, fx.entry, fi.Body.Lbrace)
+				env.bound = fx.resultBindings(exit, rc)
+				fx.bindParamsFromEntry(env, fi)
+				if fx.recv != nil {
+					if t, ok := fx.entry.vars[fx.recv]; ok {
+						env.bound["this"] = Val{T: t, S: c.sortOf(fx.recv.Type()), GT: fx.recv.Type()}
+					}
 				}
-				if strings.HasPrefix(k, "F:") || strings.HasPrefix(k, "E:") || strings.HasPrefix(k, "P:") || strings.HasPrefix(k, "M") || strings.HasPrefix(k, "G:") || k == "CC" || k == "CP" || declared[k] == "fresh" {
-					phi := fmt.Sprintf("(forall ((r!f Int)) (=> (and (< 0 r!f) (<= r!f %s)) (= (select %s r!f) (select %s r!f))))", fx.entry.alloc, hx, he)
-					c.oblige(exit, "frame", "old("+k+")", phi, "frame: "+k+" is not in the modifies clause: unchanged at every reference that existed at entry", w.pos(fi.Body.Rbrace))
-					continue
+				ev := fx.specEval(env, ec.Expr)
+				c.oblige(exit, "post", fmt.Sprintf("emits.%d", k+1)+sfx, fmt.Sprintf("(= (select %s (+ %s %d)) %s)", exit.evlog, fx.entry.evlen, k, ev.T), "emits "+ec.Text, w.pos(fi.Body.Rbrace))
+			}
+		}
+		if fi.Spec != nil {
+			for k, e := range fi.Spec.Ensures {
+				env := fx.specEnv(exit, fx.entry, fi.Body.Lbrace)
+				env.bound = fx.resultBindings(exit, rc)
+				// parameters in postconditions denote their entry values
+				fx.bindParamsFromEntry(env, fi)
+				anchor := fmt.Sprintf("E%d", k+1)
+				if e.Name != "" {
+					anchor = e.Name
 				}
-				c.oblige(exit, "frame", k, fmt.Sprintf("(= %s %s)", hx, he), "frame: "+k+" is not in the modifies clause and must be unchanged", w.pos(fi.Body.Rbrace))
+				parts := splitConj(e.Expr)
+				for pi, pe := range parts {
+					a := anchor
+					if len(parts) > 1 {
+						a = fmt.Sprintf("%s.c%d", anchor, pi+1)
+					}
+					c.oblige(exit, "post", a+sfx, fx.specBool(env, pe), e.Text, w.pos(fi.Body.Rbrace))
+				}
 			}
 		}
 	}
-	if fi.Spec != nil && fi.Spec.Flags["emits"] == "opaque" {
-		phi := fmt.Sprintf("(forall ((k!p Int)) (=> (and (<= %s k!p) (< k!p %s)) (>= (ev_kind (select %s k!p)) %d)))", fx.entry.evlen, exit.evlen, exit.evlog, evKinds["Other"])
-		c.oblige(exit, "post", "emits.opaque", phi, "emits only opaque events (of unknown callbacks)", w.pos(fi.Body.Rbrace))
-	}
-	if fi.Spec != nil && (len(fi.Spec.EmitsC) > 0 || fi.Spec.Flags["emits"] == "none") {
-		// the function's events are exactly the declared list
-		n := len(fi.Spec.EmitsC)
-		c.oblige(exit, "post", "emits.count", fmt.Sprintf("(= %s (+ %s %d))", exit.evlen, fx.entry.evlen, n), fmt.Sprintf("emits exactly %d events", n), w.pos(fi.Body.Rbrace))
-		for k, ec := range fi.Spec.EmitsC {
-			env := fx.specEnv(exit, fx.entry, fi.Body.Lbrace)
-			env.bound = fx.resultBindings(exit, rc)
-			fx.bindParamsFromEntry(env, fi)
-			if fx.recv != nil {
-				if t, ok := fx.entry.vars[fx.recv]; ok {
-					env.bound["this"] = Val{T: t, S: c.sortOf(fx.recv.Type()), GT: fx.recv.Type()}
-				}
-			}
-			ev := fx.specEval(env, ec.Expr)
-			c.oblige(exit, "post", fmt.Sprintf("emits.%d", k+1), fmt.Sprintf("(= (select %s (+ %s %d)) %s)", exit.evlog, fx.entry.evlen, k, ev.T), "emits "+ec.Text, w.pos(fi.Body.Rbrace))
+	// postconditions are checked per return site when there are few (smaller queries, the failing exit is named);
+	// on the merged exit state otherwise
+	var live []*State
+	for _, r := range rc.returns {
+		if r != nil && !r.dead {
+			live = append(live, r)
 		}
 	}
-	if fi.Spec != nil {
-		for k, e := range fi.Spec.Ensures {
-			env := fx.specEnv(exit, fx.entry, fi.Body.Lbrace)
-			env.bound = fx.resultBindings(exit, rc)
-			// parameters in postconditions denote their entry values
-			fx.bindParamsFromEntry(env, fi)
-			anchor := fmt.Sprintf("E%d", k+1)
-			if e.Name != "" {
-				anchor = e.Name
-			}
-			parts := splitConj(e.Expr)
-			for pi, pe := range parts {
-				a := anchor
-				if len(parts) > 1 {
-					a = fmt.Sprintf("%s.c%d", anchor, pi+1)
-				}
-				c.oblige(exit, "post", a, fx.specBool(env, pe), e.Text, w.pos(fi.Body.Rbrace))
-			}
+	if pathMode {
+		for _, r := range live {
+			checkExit(r, "")
 		}
+	} else if len(live) > 1 && len(live) <= 8 && fi.Spec != nil {
+		for i, r := range live {
+			checkExit(r, fmt.Sprintf(".ret%d", i+1))
+		}
+	} else {
+		checkExit(exit, "")
 	}
 	res.Obligs = c.obligs
 	fx.finishInputs()
-	return res
+	return
 }
 
 // cells of boxed locals are always fresh
